@@ -767,7 +767,8 @@ DLLIMPORT int cfg_parse_boolean(const char *s)
 	return CFG_FAIL;
 }
 
-static void cfg_init_defaults(cfg_t *cfg)
+/* Returns non-zero when a default value could not be stored (out of memory) */
+static int cfg_init_defaults(cfg_t *cfg)
 {
 	int i;
 
@@ -859,19 +860,23 @@ static void cfg_init_defaults(cfg_t *cfg)
 			} else {
 				switch (cfg->opts[i].type) {
 				case CFGT_INT:
-					cfg_opt_setnint(&cfg->opts[i], cfg->opts[i].def.number, 0);
+					if (cfg_opt_setnint(&cfg->opts[i], cfg->opts[i].def.number, 0) != CFG_SUCCESS)
+						return -1;
 					break;
 
 				case CFGT_FLOAT:
-					cfg_opt_setnfloat(&cfg->opts[i], cfg->opts[i].def.fpnumber, 0);
+					if (cfg_opt_setnfloat(&cfg->opts[i], cfg->opts[i].def.fpnumber, 0) != CFG_SUCCESS)
+						return -1;
 					break;
 
 				case CFGT_BOOL:
-					cfg_opt_setnbool(&cfg->opts[i], cfg->opts[i].def.boolean, 0);
+					if (cfg_opt_setnbool(&cfg->opts[i], cfg->opts[i].def.boolean, 0) != CFG_SUCCESS)
+						return -1;
 					break;
 
 				case CFGT_STR:
-					cfg_opt_setnstr(&cfg->opts[i], cfg->opts[i].def.string, 0);
+					if (cfg_opt_setnstr(&cfg->opts[i], cfg->opts[i].def.string, 0) != CFG_SUCCESS)
+						return -1;
 					break;
 
 				case CFGT_FUNC:
@@ -892,10 +897,13 @@ static void cfg_init_defaults(cfg_t *cfg)
 			cfg->opts[i].flags |= CFGF_RESET;
 			cfg->opts[i].flags &= ~CFGF_MODIFIED;
 		} else if (!is_set(CFGF_MULTI, cfg->opts[i].flags)) {
-			cfg_setopt(cfg, &cfg->opts[i], NULL);
+			if (!cfg_setopt(cfg, &cfg->opts[i], NULL))
+				return -1;
 			cfg->opts[i].flags |= CFGF_DEFINIT;
 		}
 	}
+
+	return 0;
 }
 
 /* a numeral after a radix prefix: digits of that radix only, at least one */
@@ -1136,7 +1144,12 @@ DLLIMPORT cfg_value_t *cfg_setopt(cfg_t *cfg, cfg_opt_t *opt, const char *value)
 			}
 
 			/* a new section starts out with its declared defaults */
-			cfg_init_defaults(val->section);
+			if (cfg_init_defaults(val->section)) {
+				val->section->path = NULL; /* Global search path */
+				cfg_free(val->section);
+				cfg_dropval(opt, val);
+				return NULL;
+			}
 		}
 		break;
 
@@ -1969,7 +1982,10 @@ DLLIMPORT cfg_t *cfg_init(cfg_opt_t *opts, cfg_flag_t flags)
 	bindtextdomain(PACKAGE, LOCALEDIR);
 #endif
 
-	cfg_init_defaults(cfg);
+	if (cfg_init_defaults(cfg)) {
+		cfg_free(cfg);
+		return NULL;
+	}
 
 	return cfg;
 }
